@@ -75,6 +75,14 @@ TCommit ==
     /\ UNCHANGED <<nroots, clean>>
     /\ Observe
 
+TCommitNoop ==
+    /\ IsEvent("CommitNoop")
+    /\ CommitNoop(Ev.out.cp = 1)
+    /\ hist'[1].out.r = Ev.out.r
+    /\ MatchesSt /\ MatchesRemoved /\ MatchesJobs
+    /\ UNCHANGED <<nroots, clean, vt>>
+    /\ Observe
+
 TFinalize ==
     /\ IsEvent("Finalize") /\ Finalize
     /\ hist'[1].in.r = Ev.in.r /\ hist'[1].out.pruned = Ev.out.pruned /\ hist'[1].out.cp = Ev.out.cp
@@ -118,7 +126,7 @@ TSnapStart == JobEvent("SnapStart", Append(jobs, NewJob(vt[Ev.in.r], "s"))) /\ M
 TCpStart   == JobEvent("CpStart", Append(jobs, NewJob(vt[Ev.in.r], "c"))) /\ MatchesSt /\ MatchesRemoved
 TSnapStep  == JobEvent("SnapStep", jobs) /\ MatchesSt /\ MatchesRemoved
 
-TraceNext == TNew \/ TCommit \/ TFinalize \/ TRollback \/ TEnter \/ TExit \/ TSnapStart \/ TCpStart \/ TSnapStep
+TraceNext == TNew \/ TCommit \/ TCommitNoop \/ TFinalize \/ TRollback \/ TEnter \/ TExit \/ TSnapStart \/ TCpStart \/ TSnapStep
 TraceSpec == TraceInit /\ [][TraceNext]_tvars
 
 -----------------------------------------------------------------------------
@@ -145,7 +153,7 @@ ObsNew ==
     /\ clean' = (Ev.in.clean = 1) /\ manual' = 0
 
 ObsBlock ==
-    /\ l <= Len(TLog) /\ Ev.a \in {"Commit", "Finalize", "Rollback", "Enter", "Exit"} /\ ObsCommon
+    /\ l <= Len(TLog) /\ Ev.a \in {"Commit", "CommitNoop", "Finalize", "Rollback", "Enter", "Exit"} /\ ObsCommon
     /\ vt' = IF Ev.a = "Commit" THEN (Ev.out.r :> VersionOf(Ev.out)) @@ vt ELSE vt
     /\ chain' = ObsChain
     /\ dead' = dead \cup Gone
